@@ -54,6 +54,12 @@ pub trait StrOps {
     fn write_fmt_args(&mut self, _a: std::fmt::Arguments<'_>) -> R {
         unreachable!()
     }
+    fn reserve(&mut self, _n: usize) -> R {
+        unreachable!()
+    }
+    fn reserve_exact(&mut self, _n: usize) -> R {
+        unreachable!()
+    }
     fn remove(&mut self, i: usize) -> char;
     fn pop(&mut self) -> Option<char>;
     fn truncate(&mut self, n: usize);
@@ -143,6 +149,14 @@ macro_rules! growable_ops {
         fn into_cstr(self: Box<Self>) -> Vec<u8> {
             self.0.into_cstr().to_bytes_with_nul().to_vec()
         }
+        fn reserve(&mut self, n: usize) -> R {
+            self.0.reserve(n);
+            Ok(())
+        }
+        fn reserve_exact(&mut self, n: usize) -> R {
+            self.0.reserve_exact(n);
+            Ok(())
+        }
     };
 }
 
@@ -185,6 +199,9 @@ impl StrOps for AdFixed<'_> {
     fn write_fmt_args(&mut self, a: std::fmt::Arguments<'_>) -> R {
         std::fmt::Write::write_fmt(&mut self.0, a).map_err(|_| ())
     }
+    fn reserve(&mut self, n: usize) -> R {
+        self.0.try_reserve(n).map_err(|_| ())
+    }
     fn split_off(&mut self, r: Rg) -> (Vec<u8>, usize) {
         let o = self.0.split_off(r);
         (o.as_bytes().to_vec(), o.capacity())
@@ -213,18 +230,29 @@ impl<const UP: bool> StrOps for AdMut<'_, UP> {
     }
 }
 
-/// creates the real string of `kind` holding `text` (capacity `cap` for a fixed string) in a fresh
-/// arena and hands it to `f`
-pub fn with_string<const UP: bool>(kind: Kind, text: &str, cap: usize, f: &mut dyn FnMut(Box<dyn StrOps + '_>)) {
+/// creates the real string of `kind` holding `text` in a fresh arena and hands it to `f`.
+/// `ctor`: `None` = `from_str_in` / `alloc_str`; `Some(c)` = `with_capacity_in(c)` followed by `push_str(text)`
+/// (a fixed string is always built with `with_capacity_in(c.max(text.len()))`)
+pub fn with_string<const UP: bool>(kind: Kind, text: &str, ctor: Option<usize>, f: &mut dyn FnMut(Box<dyn StrOps + '_>)) {
     let mut bump: BumpT<UP> = Bump::new();
-    match kind {
-        Kind::Box => f(Box::new(AdBox(bump.alloc_str(text)))),
-        Kind::Fixed => {
-            let mut s = FixedBumpString::with_capacity_in(cap.max(text.len()), &bump);
+    match (kind, ctor) {
+        (Kind::Box, _) => f(Box::new(AdBox(bump.alloc_str(text)))),
+        (Kind::Fixed, c) => {
+            let mut s = FixedBumpString::with_capacity_in(c.unwrap_or(0).max(text.len()), &bump);
             s.push_str(text);
             f(Box::new(AdFixed(s)))
         }
-        Kind::Bump => f(Box::new(AdBump::<UP>(BumpString::from_str_in(text, &bump)))),
-        Kind::Mut => f(Box::new(AdMut::<UP>(MutBumpString::from_str_in(text, &mut bump)))),
+        (Kind::Bump, None) => f(Box::new(AdBump::<UP>(BumpString::from_str_in(text, &bump)))),
+        (Kind::Bump, Some(c)) => {
+            let mut s = BumpString::with_capacity_in(c, &bump);
+            s.push_str(text);
+            f(Box::new(AdBump::<UP>(s)))
+        }
+        (Kind::Mut, None) => f(Box::new(AdMut::<UP>(MutBumpString::from_str_in(text, &mut bump)))),
+        (Kind::Mut, Some(c)) => {
+            let mut s = MutBumpString::with_capacity_in(c.max(text.len()), &mut bump);
+            s.push_str(text);
+            f(Box::new(AdMut::<UP>(s)))
+        }
     }
 }
